@@ -555,17 +555,8 @@ func (e *Env) RDiscovery() {
 		e.Run.Violation("R-DISC", "scan callback is a literal", pos, "callback not analysable")
 		return
 	}
-	// every return in the callback returns true (no subtree is pruned)
-	allTrue := true
-	ast.Inspect(lit.Body, func(n ast.Node) bool {
-		if rs, ok := n.(*ast.ReturnStmt); ok && (len(rs.Results) != 1 || c.ExprStr(rs.Results[0]) != "true") {
-			allTrue = false
-		}
-		return true
-	})
-	e.Run.Check("R-DISC", "the scan never prunes a subtree", e.Prog.Pos(lit.Pos()), allTrue, "a `return false` in the callback hides the identifiers below that node: their imports are dropped")
 	// Ident arm: packagesInUse[n.Path] and importsRequired[n.Path] under Path != "" && Path != r.Path
-	var identArm, specArm *ast.CaseClause
+	var identArm, specArm, declArm *ast.CaseClause
 	ast.Inspect(lit.Body, func(n ast.Node) bool {
 		if cc, ok := n.(*ast.CaseClause); ok && len(cc.List) == 1 {
 			switch c.ExprStr(cc.List[0]) {
@@ -573,6 +564,8 @@ func (e *Env) RDiscovery() {
 				identArm = cc
 			case "*ImportSpec":
 				specArm = cc
+			case "*GenDecl":
+				declArm = cc
 			}
 		}
 		return true
@@ -580,6 +573,61 @@ func (e *Env) RDiscovery() {
 	e.resolvedDomain(c, fd, lit, identArm)
 	undo := c.InstallReachingIn(lit.Body)
 	defer undo()
+	// every return in the callback returns true (no subtree is pruned) — except below an import
+	// declaration, which holds nothing but import specs (no identifier there carries a path); then
+	// the specs are never handed to the callback, and the declaration's arm records them itself
+	allTrue, prunesImports := true, false
+	ast.Inspect(lit.Body, func(n ast.Node) bool {
+		if rs, ok := n.(*ast.ReturnStmt); ok && (len(rs.Results) != 1 || c.ExprStr(rs.Results[0]) != "true") {
+			if declArm != nil && declArm.Pos() <= rs.Pos() && rs.End() <= declArm.End() {
+				cond, okc := pathCond(c, declArm.Body, rs)
+				if cond == "" {
+					cond = "true"
+				}
+				if imp, dec := unsatWith(cond, "n.Tok != token.IMPORT"); okc && dec && imp {
+					prunesImports = true
+					return true
+				}
+			}
+			allTrue = false
+		}
+		return true
+	})
+	e.Run.Check("R-DISC", "the scan never prunes a subtree", e.Prog.Pos(lit.Pos()), allTrue, "a `return false` in the callback hides the identifiers below that node: their imports are dropped")
+	// the per-spec code: the *ImportSpec arm, or a loop over n.Specs in the import declaration's arm
+	specText := "n"
+	if declArm != nil && (specArm == nil || prunesImports) {
+		specArm = nil
+		var loop *ast.RangeStmt
+		for _, st := range declArm.Body {
+			if rs, ok := st.(*ast.RangeStmt); ok && c.ExprStr(rs.X) == "n.Specs" && rs.Value != nil {
+				loop = rs
+			}
+		}
+		if loop != nil {
+			cond, okc := pathCond(c, declArm.Body, loop)
+			if cond == "" {
+				cond = "true"
+			}
+			always, dec := unsatWith("n.Tok == token.IMPORT", schema.NegGuard("("+cond+")"))
+			if !okc || !dec {
+				e.Run.Undecided("R-DISC", "every import spec is recorded", e.Prog.Pos(loop.Pos()), "condition of the loop over the specs not propositional: "+cond)
+			} else if !always {
+				e.Run.Check("R-DISC", "every import spec is recorded", e.Prog.Pos(loop.Pos()), false, "the loop over the specs of an import declaration runs only under `"+cond+"`: the specs of other import declarations are never recorded, so their imports are added a second time")
+			} else {
+				specArm = &ast.CaseClause{Case: loop.Pos(), Body: loop.Body.List}
+				// the spec at hand, as the loop body writes it
+				ast.Inspect(loop.Body, func(n ast.Node) bool {
+					if se, ok := n.(*ast.SelectorExpr); ok && se.Sel.Name == "Path" {
+						if t := c.Info.TypeOf(se.X); t != nil && strings.HasSuffix(t.String(), "dst.ImportSpec") && specText == "n" {
+							specText = c.ExprStr(se.X)
+						}
+					}
+					return true
+				})
+			}
+		}
+	}
 	// stores of an arm: target text → path condition inside the arm (several stores to one target: or)
 	stores := func(arm *ast.CaseClause) (map[string]string, bool) {
 		out := map[string]string{}
@@ -602,6 +650,10 @@ func (e *Env) RDiscovery() {
 						cond = "true"
 					}
 					k := c.ExprStr(l) + " = " + c.ExprStr(as.Rhs[i])
+					if arm == specArm && specText != "n" {
+						k = strings.ReplaceAll(k, specText, "n")
+						cond = strings.ReplaceAll(cond, specText, "n")
+					}
 					if prev, seen := out[k]; seen {
 						cond = "(" + prev + ") || (" + cond + ")"
 					}
@@ -660,7 +712,7 @@ func (e *Env) RDiscovery() {
 			`importsRequired["C"] = true`:                           `mustUnquote(n.Path.Value) == "C"`,
 		})
 	} else {
-		e.Run.Violation("R-DISC", "scan has an *dst.ImportSpec arm", e.Prog.Pos(lit.Pos()), "missing")
+		e.Run.Violation("R-DISC", "scan has an *dst.ImportSpec arm (or records the specs of every import declaration in a loop)", e.Prog.Pos(lit.Pos()), "missing")
 	}
 }
 
@@ -1126,6 +1178,11 @@ func (e *Env) checkReturnsZ(rule string, c *schema.Ctx, fd *ast.FuncDecl, label,
 			}
 			return "(" + x + ") && (" + w.assume + ")"
 		}
+		if w.cond == "*" {
+			// the conditions of these returns are somebody else's obligation (they sit in a loop)
+			e.Run.Check(rule, label+": "+w.what, e.Prog.Pos(fd.Pos()), true, "")
+			continue
+		}
 		eq, dec := equivalentGuards(under(got), under(w.cond))
 		if !dec {
 			e.Run.Undecided(rule, label+": "+w.what, e.Prog.Pos(fd.Pos()), "condition not propositional: "+got)
@@ -1183,21 +1240,33 @@ func (e *Env) goastImports() {
 		}
 		return true
 	})
+	// loop form: no callback at all — the function ranges over the file's declarations and their
+	// specs (or over file.Imports) itself; the per-spec code is the body of the innermost loop that
+	// stores into the table, a refusal is a `return nil, E` from inside it
+	var specLoop *ast.RangeStmt
 	if lit == nil {
+		specLoop = e.goastSpecLoop(c, fd)
+	}
+	if lit == nil && specLoop == nil {
 		returnsSpec("imports", "outer")
-		e.Run.Violation("R-RESOLVER", "goast.imports scans the file with ast.Inspect and a literal callback", e.Prog.Pos(fd.Pos()), "not found")
+		e.Run.Violation("R-RESOLVER", "goast.imports scans the file with ast.Inspect and a literal callback, or with a loop over the import specs", e.Prog.Pos(fd.Pos()), "not found")
 		return
 	}
 	var arm *ast.CaseClause
-	ast.Inspect(lit.Body, func(n ast.Node) bool {
-		if cc, ok := n.(*ast.CaseClause); ok && len(cc.List) == 1 && c.ExprStr(cc.List[0]) == "*ImportSpec" {
-			arm = cc
+	if lit != nil {
+		ast.Inspect(lit.Body, func(n ast.Node) bool {
+			if cc, ok := n.(*ast.CaseClause); ok && len(cc.List) == 1 && c.ExprStr(cc.List[0]) == "*ImportSpec" {
+				arm = cc
+			}
+			return true
+		})
+		if arm == nil {
+			e.Run.Violation("R-RESOLVER", "goast.imports: the scan has an *ast.ImportSpec arm", e.Prog.Pos(lit.Pos()), "missing")
+			return
 		}
-		return true
-	})
-	if arm == nil {
-		e.Run.Violation("R-RESOLVER", "goast.imports: the scan has an *ast.ImportSpec arm", e.Prog.Pos(lit.Pos()), "missing")
-		return
+		e.goastCallbackReachesEverySpec(c, lit, arm)
+	} else {
+		arm = &ast.CaseClause{Case: specLoop.Pos(), Body: specLoop.Body.List}
 	}
 	type asg struct {
 		lhs, rhs, cond string
@@ -1245,7 +1314,9 @@ func (e *Env) goastImports() {
 		})
 	}
 	var undo func()
-	if helper != nil {
+	if specLoop != nil && helper == nil {
+		undo = c.InstallReaching(fd)
+	} else if helper != nil {
 		body = helper.Body.List
 		undo = c.InstallReaching(helper)
 		// parameters print as the caller's arguments
@@ -1285,7 +1356,7 @@ func (e *Env) goastImports() {
 				}
 			case *ast.ReturnStmt:
 				// helper form: `return false, E` is the refusal `outer = E`
-				if helper != nil && len(x.Results) == 2 && c.ExprStr(x.Results[1]) != "nil" {
+				if (helper != nil || specLoop != nil) && len(x.Results) == 2 && c.ExprStr(x.Results[1]) != "nil" {
 					cond, okc := pathCond(c, body, x)
 					if !okc {
 						undecided = true
@@ -1303,7 +1374,25 @@ func (e *Env) goastImports() {
 		e.Run.Undecided("R-RESOLVER", "goast.imports: ImportSpec arm", e.Prog.Pos(arm.Pos()), "path condition of an assignment not computable")
 		return
 	}
-	const P = `mustUnquote(node.Path.Value)`
+	// the unquoted import path of the spec at hand, as written (node.Path.Value through the arm's
+	// variable, or through whatever the loop form calls the spec)
+	P := `mustUnquote(node.Path.Value)`
+	for _, st := range body {
+		ast.Inspect(st, func(n ast.Node) bool {
+			if call, ok := n.(*ast.CallExpr); ok && len(call.Args) == 1 {
+				if fn := c.Callee(call); fn != nil && fn.Name() == "mustUnquote" {
+					if se, ok := call.Args[0].(*ast.SelectorExpr); ok && se.Sel.Name == "Value" {
+						if pe, ok := se.X.(*ast.SelectorExpr); ok && pe.Sel.Name == "Path" {
+							if t := c.Info.TypeOf(pe.X); t != nil && strings.HasSuffix(t.String(), "go/ast.ImportSpec") {
+								P = c.ExprStr(call)
+							}
+						}
+					}
+				}
+			}
+			return true
+		})
+	}
 	// the package-name resolver call, as written (r.RestorerResolver… or through an owner field)
 	RP := `r.RestorerResolver.ResolvePackage(` + P + `)`
 	for _, st := range body {
@@ -1334,7 +1423,16 @@ func (e *Env) goastImports() {
 			errL = a.lhs
 		}
 	}
-	returnsSpec(rename(table), rename(errL))
+	if specLoop != nil {
+		e.checkReturnsZ("R-RESOLVER", c, fd, "goast.imports", "∅", []wantReturn{
+			{what: "a cached table is returned as it is", result: "r.files[file]", cond: "ok(r.files[file])"},
+			{what: "a refusal leaves with an error, not with a partial table", result: "nil", err: "!nil", cond: "*"},
+			{what: "otherwise the new table", result: table, cond: "!ok(r.files[file])"},
+		}, "")
+		e.goastLoopReachesEverySpec(c, fd, specLoop)
+	} else {
+		returnsSpec(rename(table), rename(errL))
+	}
 	if nStores != 1 {
 		e.Run.Violation("R-RESOLVER", "goast.imports: one store into the table per import spec", e.Prog.Pos(arm.Pos()), fmt.Sprintf("%d stores", nStores))
 		return
@@ -1375,6 +1473,255 @@ func (e *Env) goastImports() {
 	e.Run.Check("R-RESOLVER", "goast.imports: two imports under one name are refused", e.Prog.Pos(arm.Pos()), dup, "no `outer = fmt.Errorf(…)` under the presence test of imports[name]")
 	e.Run.Check("R-RESOLVER", "goast.imports: an unnamed import takes its name from the package-name resolver, whose error is recorded", e.Prog.Pos(arm.Pos()), res,
 		"no `outer = <error of "+RP+">` under that error being non-nil")
+}
+
+// goastSpecLoop: the innermost range loop of fd (outside function literals) whose body stores
+// into a string-keyed map.
+func (e *Env) goastSpecLoop(c *schema.Ctx, fd *ast.FuncDecl) *ast.RangeStmt {
+	var best *ast.RangeStmt
+	var walk func(n ast.Node, cur *ast.RangeStmt)
+	walk = func(n ast.Node, cur *ast.RangeStmt) {
+		ast.Inspect(n, func(m ast.Node) bool {
+			switch x := m.(type) {
+			case *ast.FuncLit:
+				return false
+			case *ast.RangeStmt:
+				if x != n {
+					walk(x, x)
+					return false
+				}
+			case *ast.AssignStmt:
+				for _, l := range x.Lhs {
+					if ix, ok := l.(*ast.IndexExpr); ok && cur != nil {
+						if mt, isMap := c.Info.TypeOf(ix.X).Underlying().(*types.Map); isMap {
+							if b, ok := mt.Key().Underlying().(*types.Basic); ok && b.Kind() == types.String && (best == nil || (best.Pos() <= cur.Pos() && cur.End() <= best.End())) {
+								best = cur
+							}
+						}
+					}
+				}
+			}
+			return true
+		})
+	}
+	walk(fd.Body, nil)
+	return best
+}
+
+// goastCallbackReachesEverySpec: in the callback form ast.Inspect hands every import spec to the
+// *ast.ImportSpec arm unless the callback prunes the file or an import declaration. Every
+// `return false` of the callback is therefore (a) in an arm for node types other than *ast.File and
+// *ast.GenDecl, (b) in the *ast.GenDecl arm under a condition that excludes Tok == IMPORT, or
+// (c) outside the arms under a condition over flags that are only raised in such places or in the
+// import-spec arm itself (a refusal, or "past the imports").
+func (e *Env) goastCallbackReachesEverySpec(c *schema.Ctx, lit *ast.FuncLit, specArm *ast.CaseClause) {
+	key := "goast.imports: every import spec of the file reaches the per-spec code"
+	var ts *ast.TypeSwitchStmt
+	ast.Inspect(lit.Body, func(n ast.Node) bool {
+		if t, ok := n.(*ast.TypeSwitchStmt); ok && t.Pos() <= specArm.Pos() && specArm.End() <= t.End() {
+			ts = t
+		}
+		return true
+	})
+	if ts == nil {
+		return
+	}
+	undo := c.InstallReachingIn(lit.Body)
+	defer undo()
+	armOf := func(n ast.Node) *ast.CaseClause {
+		for _, cl := range ts.Body.List {
+			if cc := cl.(*ast.CaseClause); cc.Pos() <= n.Pos() && n.End() <= cc.End() {
+				return cc
+			}
+		}
+		return nil
+	}
+	// allowed: may a statement at n prune / raise a stop flag?
+	allowed := func(n ast.Node) (bool, string) {
+		cc := armOf(n)
+		if cc == nil {
+			return false, "outside the arms"
+		}
+		if cc == specArm {
+			return true, ""
+		}
+		if cc.List == nil {
+			return false, "in the default arm (which also receives the file and its import declarations)"
+		}
+		for _, t := range cc.List {
+			switch c.ExprStr(t) {
+			case "*File":
+				return false, "in the *ast.File arm"
+			case "*GenDecl":
+				cond, okc := pathCond(c, cc.Body, n)
+				if cond == "" {
+					cond = "true"
+				}
+				v := "node"
+				if id, ok := ts.Assign.(*ast.AssignStmt); ok && len(id.Lhs) == 1 {
+					v = c.ExprStr(id.Lhs[0])
+				}
+				excl, dec := unsatWith(cond, v+".Tok == token.IMPORT")
+				if !okc || !dec {
+					return false, "in the *ast.GenDecl arm under a condition that is not propositional: " + cond
+				}
+				if !excl {
+					return false, "in the *ast.GenDecl arm under `" + cond + "`, which does not exclude an import declaration"
+				}
+			}
+		}
+		return true, ""
+	}
+	n := 0
+	var inspect func(root ast.Node)
+	inspect = func(root ast.Node) {
+		ast.Inspect(root, func(m ast.Node) bool {
+			if fl, ok := m.(*ast.FuncLit); ok && fl != lit {
+				return false
+			}
+			rs, ok := m.(*ast.ReturnStmt)
+			if !ok || len(rs.Results) != 1 || c.ExprStr(rs.Results[0]) == "true" {
+				return true
+			}
+			n++
+			pos := e.Prog.Pos(rs.Pos())
+			if ok, _ := allowed(rs); ok {
+				return true
+			}
+			if armOf(rs) != nil {
+				_, why := allowed(rs)
+				e.Run.Check("R-RESOLVER", key, pos, false, "the scan is pruned "+why+": the import specs below never reach the table")
+				return true
+			}
+			// outside the arms: a test of stop flags
+			cond, okc := pathCond(c, lit.Body.List, rs)
+			if !okc || cond == "" {
+				e.Run.Check("R-RESOLVER", key, pos, false, "the callback returns "+c.ExprStr(rs.Results[0])+" for every node here: nothing below is scanned")
+				return true
+			}
+			// every lvalue mentioned in the condition is only assigned where pruning is allowed
+			good, detail := true, ""
+			ast.Inspect(lit.Body, func(a ast.Node) bool {
+				as, ok := a.(*ast.AssignStmt)
+				if !ok {
+					return true
+				}
+				for i, l := range as.Lhs {
+					lt := types.ExprString(l)
+					if !regexp.MustCompile(`(^|[^\w.])` + regexp.QuoteMeta(lt) + `($|[^\w.(\[])`).MatchString(cond) {
+						continue
+					}
+					if len(as.Rhs) == len(as.Lhs) {
+						if r := c.ExprStr(as.Rhs[i]); r == "false" || r == "nil" {
+							continue
+						}
+					}
+					if ok, why := allowed(as); !ok {
+						good = false
+						detail = "the stop flag " + lt + " (tested at " + pos + ") is raised " + why + " at " + e.Prog.Pos(as.Pos()) + ": the rest of the file, with its import specs, is not scanned"
+					}
+				}
+				return true
+			})
+			e.Run.Check("R-RESOLVER", key, pos, good, detail)
+			return true
+		})
+	}
+	inspect(lit.Body)
+	e.Run.Floor("R-RESOLVER", "goast.imports: pruning returns of the scan examined", n, 1)
+}
+
+// goastLoopReachesEverySpec: in the loop form every import spec of the file is handed to the
+// per-spec code: the spec loop ranges over file.Imports, or over the Specs of a declaration that an
+// enclosing loop takes from file.Decls, and no break, continue or return in the enclosing loop can
+// be taken for an import declaration before the spec loop runs (import declarations come first, so
+// stopping at the first other declaration is fine).
+func (e *Env) goastLoopReachesEverySpec(c *schema.Ctx, fd *ast.FuncDecl, specLoop *ast.RangeStmt) {
+	pos := e.Prog.Pos(specLoop.Pos())
+	key := "goast.imports: every import spec of the file reaches the per-spec code"
+	fileParam := ""
+	if fd.Type.Params != nil && len(fd.Type.Params.List) == 1 && len(fd.Type.Params.List[0].Names) == 1 {
+		fileParam = fd.Type.Params.List[0].Names[0].Name
+	}
+	undo := c.InstallReaching(fd)
+	defer undo()
+	x := c.ExprStr(specLoop.X)
+	if x == fileParam+".Imports" {
+		e.Run.Check("R-RESOLVER", key, pos, true, "")
+		return
+	}
+	// enclosing loop over file.Decls
+	var outer *ast.RangeStmt
+	ast.Inspect(fd.Body, func(n ast.Node) bool {
+		if rs, ok := n.(*ast.RangeStmt); ok && rs != specLoop && rs.Pos() <= specLoop.Pos() && specLoop.End() <= rs.End() {
+			outer = rs
+		}
+		return true
+	})
+	if outer == nil || c.ExprStr(outer.X) != fileParam+".Decls" || outer.Value == nil {
+		e.Run.Check("R-RESOLVER", key, pos, false, "the spec loop ranges over `"+x+"`, which is neither "+fileParam+".Imports nor the Specs of each declaration in "+fileParam+".Decls")
+		return
+	}
+	declVar := c.ExprStr(outer.Value)
+	if !strings.HasSuffix(x, ".Specs") || !strings.HasPrefix(x, declVar+".(*GenDecl)") {
+		e.Run.Check("R-RESOLVER", key, pos, false, "the spec loop ranges over `"+x+"`, not over the Specs of the declaration `"+declVar+"`")
+		return
+	}
+	isImport := "ok(" + declVar + ".(*GenDecl)) && " + declVar + ".(*GenDecl).Tok == token.IMPORT"
+	good := true
+	detail := ""
+	ast.Inspect(outer.Body, func(n ast.Node) bool {
+		if n == ast.Node(specLoop) {
+			return false
+		}
+		var leave ast.Stmt
+		switch s := n.(type) {
+		case *ast.FuncLit:
+			return false
+		case *ast.BranchStmt:
+			if s.Tok == token.BREAK || s.Tok == token.CONTINUE || s.Tok == token.GOTO {
+				leave = s
+			}
+		case *ast.ReturnStmt:
+			leave = s
+		}
+		if leave == nil || leave.Pos() > specLoop.Pos() {
+			return true
+		}
+		cond, okc := pathCond(c, outer.Body.List, leave)
+		if cond == "" {
+			cond = "true"
+		}
+		excl, dec := unsatWith(cond, isImport)
+		if !okc || !dec {
+			e.Run.Undecided("R-RESOLVER", key, e.Prog.Pos(leave.Pos()), "condition not propositional: "+cond)
+			return true
+		}
+		if !excl {
+			good = false
+			detail = "the loop over the declarations can be left at " + e.Prog.Pos(leave.Pos()) + " under `" + cond + "`, which does not exclude an import declaration: its specs never reach the table"
+		}
+		return true
+	})
+	// the spec loop itself runs for every import declaration
+	cond, okc := pathCond(c, outer.Body.List, specLoop)
+	if !okc {
+		e.Run.Undecided("R-RESOLVER", key, pos, "path condition of the spec loop not computable")
+		return
+	}
+	if cond != "" {
+		if skipped, dec := unsatWith(isImport, cond); !dec {
+			e.Run.Undecided("R-RESOLVER", key, pos, "condition not propositional: "+cond)
+			return
+		} else if skipped {
+			good = false
+			detail = "the spec loop runs under `" + cond + "`, which excludes import declarations"
+		} else if implied, dec2 := unsatWith(isImport, schema.NegGuard("("+cond+")")); dec2 && !implied {
+			good = false
+			detail = "the spec loop runs only under `" + cond + "`, which does not hold for every import declaration"
+		}
+	}
+	e.Run.Check("R-RESOLVER", key, pos, good, detail)
 }
 
 // resolvedDomain: package names are asked of the resolver exactly for the packages that some
